@@ -17,7 +17,7 @@ ASSUMPTIONS = ["segments are atomic (they run under q.mu)"]
 
 
 def gen(rng, tier, open_keys):
-    n = 500 if tier == "quick" else 40000
+    n = 3000 if tier == "quick" else 40000
     return [Q.gen_case(rng, MIX) for _ in range(n)]
 
 
